@@ -134,7 +134,9 @@ fn hook(s: u32, obj: usize) {
     }
     let np = PLAN_N.load(Relaxed);
     for i in 0..np {
-        if PLAN_SITE[i].load(Relaxed) == s && (PLAN_K[i].load(Relaxed) == n || PLAN_K[i].load(Relaxed) == 0) {
+        // k = 0: every hit - of the first 64 of an execution: a party that is held at *each* step of a loop whose work
+        // another party keeps renewing (a poster walking past waiters that time out every 2 ms) would never get through
+        if PLAN_SITE[i].load(Relaxed) == s && (PLAN_K[i].load(Relaxed) == n || (PLAN_K[i].load(Relaxed) == 0 && n <= 64)) {
             let mut us = PLAN_US[i].load(Relaxed);
             let flags = PLAN_FLAGS[i].load(Relaxed);
             if is_armed_site(s) {
